@@ -481,14 +481,27 @@ impl<'a> EbpfVmMbuff<'a> {
     /// ```
     pub fn execute_program(&self, mem: &[u8], mbuff: &[u8]) -> Result<u64, Error> {
         let stack_usage = self.stack_usage.as_ref();
-        interpreter::execute_program(
+        #[cfg(all(rbpf_verif, feature = "std"))]
+        crate::verif::exec_begin(
+            self.prog,
+            mem,
+            mbuff,
+            &mut self.helpers.keys().copied(),
+            &mut self.allowed_memory.iter().map(|r| (r.start, r.end)),
+            &mut stack_usage.into_iter().flat_map(|u| u.entries()),
+            self.stack_verifier.has_calculator(),
+        );
+        let res = interpreter::execute_program(
             self.prog,
             stack_usage,
             mem,
             mbuff,
             &self.helpers,
             &self.allowed_memory,
-        )
+        );
+        #[cfg(all(rbpf_verif, feature = "std"))]
+        crate::verif::exec_end(&res);
+        res
     }
 
     /// JIT-compile the loaded program. No argument required for this.
